@@ -187,6 +187,21 @@ def run_mc(w, m, cfgc, dev=(), emit=True, timeout=3000, name='MCT'):
     return core.tlc(w, name, cfg, coverage=emit, timeout=timeout)
 
 
+def run_mc_sim(w, m, cfgc, seed, num):
+    def fl(o):
+        o = dict(o)
+        o['flags'] = set(o['flags'])
+        return o
+    ops = [fl(json.loads(o) if isinstance(o, str) else o) for o in m['OpSet']]
+    defs = {'c_TokKinds': set_of(m['TokKinds']), 'c_CLabels': set_of(m['CLabels']),
+            'c_CEdges': set(m['CEdges']), 'c_OpSet': set_of(ops), 'c_Programs': set_of([]),
+            'c_WC': [[w_, treeio.chars(w_)] for w_ in TRACE_WORDS],
+            'c_PUNCT': set(cfgc['PUNCT']), 'c_PAIRPUNCT': set(cfgc['PAIRPUNCT']), 'c_Dev': set()}
+    core.gen_module(w, 'MCTS', ['MC_Transform'], defs)
+    cfg = CFG % dict(m, emit='INVARIANT Emit')
+    return core.tlc(w, 'MCTS', cfg, workers=1, timeout=1800, simulate='num=%d' % num, depth=15, seed=seed + 1)
+
+
 def set_of(lst):
     return core.Raw('{' + ', '.join(sorted(core.tla(x) for x in lst)) + '}')
 
@@ -323,6 +338,22 @@ def run(prop, tier, seed, replay=None):
                     r, 'all trees within bounds x programs %s; invariants TreeOK, Clauses = {}, RetRoot'
                     % [[o['name'] for o in p] for p in m['Programs']][:6])
                 skel.extend(r.cases)
+            if prop == 'C04':
+                # beyond the exhaustive bound: TLC -simulate walks random behaviours of the same specification
+                # (bigger trees, sequences of up to 5 transformations); every visited state is a case
+                sm = model(5, 4, MaxChain=2, toks=(PLAIN, TOK_COMMA, TOK_QUOTE, TOK_HD), edges=('--', 'HD'),
+                           ops=ALLOPS, MaxOps=5, NMin=3)
+                ops_ = [json.loads(o) if isinstance(o, str) else o for o in sm['OpSet']]
+                rs = run_mc_sim(w, sm, cfgc, seed, num=150 if tier == 'quick' else 2000)
+                if rs.errors or rs.violated:
+                    open(core.VERIF + '/out/last_tlc_error.log', 'w').write(rs.out)
+                    raise core.MachineryError('simulation of MC_Transform failed: %s %s' % (rs.errors[:3], rs.violated[:3]))
+                rep.mc_runs.append({'model': 'MC_Transform -simulate N=5 MaxCons=4 MaxOps=5', 'distinct_states': 0,
+                                    'states_generated': rs.generated, 'depth': 15, 'wall_s': round(rs.wall, 1),
+                                    'note': 'random behaviours of the specification beyond the exhaustive bound; '
+                                            'invariants checked on every visited state', 'coverage_actions': {}})
+                rep.transitions += rs.generated
+                skel.extend(c for c in rs.cases if len(c['ops']) >= 3)
             if prop == 'C15':
                 r, b = run_headrules(w, cfgc, tier, seed)
                 core.tlc_ok(r, 'MC_HeadRules')
